@@ -236,6 +236,15 @@ def systematic_cases(tier):
             for i in range(0, min(n // 4, 30 if quick else 60)):
                 for w in ((0xFFFFFFFF, 0x7FFFFFFF, 0x80000000) if quick else (0xFFFFFFFF, 0x7FFFFFFF, 0, 0x00FFFFFF, 0x80000000)):
                     yield mk(["word", i, w])
+            # directories at the END of a container (zip central directory, trailing tables) hold the size fields that
+            # are trusted before a read: the last words completely, through both transports (a real file object
+            # allocates what is asked for, a memory stream does not)
+            for i in range(max(0, n // 4 - (40 if quick else 120)), n // 4):
+                for w in (0x7FFFFFFF, 0xFFFFFFFF):
+                    for vp in (False, True):
+                        c = mk(["word", i, w])
+                        c["via_path"] = vp
+                        yield c
             # pairs of aligned words in the first 32 bytes: length fields that bound each other (file length vs chunk
             # length, header size vs count); both transports, since some bounds are taken from the file on disk
             nw = min(n // 4, 8)
